@@ -79,6 +79,27 @@ PLAN["C03"] = dict(
     level="proof",
 )
 
+PLAN["C05"] = dict(
+    verus=dict(quick=["feat.of64", "cmp"], thorough=["feat.of64", "feat.f64", "cmp"]),
+    kani=dict(quick=[], thorough=[]),
+    level="proof",
+)
+PLAN["C06"] = dict(
+    verus=dict(quick=["feat.of64", "cmp", "map.f64"], thorough=["feat.of64", "feat.f64", "cmp", "map.f64", "map.of64"]),
+    kani=dict(quick=[], thorough=[]),
+    level="proof",
+)
+PLAN["C09"] = dict(
+    verus=dict(quick=["map.f64"], thorough=["map.f64", "map.of64"]),
+    kani=dict(quick=[], thorough=[]),
+    level="proof",
+)
+PLAN["C10"] = dict(
+    verus=dict(quick=["drv", "cmp"], thorough=["drv", "cmp"]),
+    kani=dict(quick=[], thorough=[]),
+    level="proof",
+)
+
 NOT_APPLICABLE = {}
 
 
